@@ -136,7 +136,20 @@ func buildScenario(seed int64, mode string, idx int, thorough bool) *scenCase {
 		default:
 			// alternate sizes: a maximum-size datagram followed by a tiny one, so that stale octets
 			// of a recycled buffer would survive into the next decode
-			feed(e, tr.Data(e, id+1, k%2 == 0), "data", phase)
+			switch {
+			case r >= 90 && (proto == "ipfix" || proto == "nf9"):
+				feed(e, tr.DataMixed(e, id+1, k%2 == 0), "data mixed with a set of an unknown template", phase)
+			case r >= 80:
+				// the tail is missing: whatever the decoder makes of the rest (records, a partial sFlow sample with a
+				// short sampled header) must still depend on this datagram alone
+				d := tr.Data(e, id+1, k%2 == 0)
+				if cut := 1 + g.Intn(160); cut < len(d) {
+					d = d[:len(d)-cut]
+				}
+				feed(e, d, "data cut short at the tail", phase)
+			default:
+				feed(e, tr.Data(e, id+1, k%2 == 0), "data", phase)
+			}
 		}
 		if churnAt[k] {
 			if g.Bool() {
